@@ -211,6 +211,19 @@ func c20Cases(cc *h.Ctx) error {
 				c.Fail("ip.IPv4Range.Contains", polarity(got, k.R), fmt.Sprintf("%v in [%v, %v]: code %v, specification %v", k.IP, s, e, got, k.R), sample)
 			}
 			c.Exec(2)
+			// the range test is on the addresses: the prefix length an endpoint (or the tested address) happens to carry does not enter it
+			for mb := 0; mb <= 32; mb++ {
+				for _, alt := range [][3]int{{mb, mb, 32}, {mb, 32, 32}, {32, mb, 32}, {mb, mb, mb}} {
+					rg := &ip.IPv4Range{Start: v4(s, alt[0]), End: v4(e, alt[1])}
+					if got := rg.Contains(v4(k.IP, alt[2])); got != k.R {
+						c.Fail("ip.IPv4Range.Contains", polarity(got, k.R)+":endpoint-prefix-length", fmt.Sprintf("%v/%d in [%v/%d, %v/%d]: code %v, specification %v", k.IP, alt[2], s, alt[0], e, alt[1], got, k.R), sample)
+					}
+					if got := v4(k.IP, alt[2]).IsInRange(v4(s, alt[0]), v4(e, alt[1])); got != k.R {
+						c.Fail("ip.IPv4.IsInRange", polarity(got, k.R)+":endpoint-prefix-length", fmt.Sprintf("%v/%d in [%v/%d, %v/%d]: code %v, specification %v", k.IP, alt[2], s, alt[0], e, alt[1], got, k.R), sample)
+					}
+					c.Exec(2)
+				}
+			}
 		case "ip4bad":
 			c.Case("ip4bad:" + str(k.Text))
 			sample := map[string]interface{}{"text": str(k.Text)}
